@@ -372,6 +372,40 @@ def r5b(ctx, facts):
                     r.instance(key, ok, "operand is %s: it must come from the statement's own idempotence flag" % txt, body.stmt_span(st))
     if seen == 0:
         raise AnchorLost("no struct with an `is_idempotent` field is built in the driver")
+    # round 10: ... and nobody ASSIGNS to such a field afterwards except the callers' own setters, which store their argument.
+    # A flag recomputed on the way (`exec_params.is_idempotent = batch.all/any(..)`) is the driver deciding idempotence, not the caller
+    n_set = 0
+    for body in facts.bodies.mentioning('"is_idempotent"'):
+        if body.crate != "scylla" or "::promoted[" in body.path:
+            continue
+        for bb in sorted(body.live_blocks):
+            for st in body.stmts(bb):
+                if not (st[0] == "A" and st[1][1]):
+                    continue
+                fs = [e for e in st[1][1] if isinstance(e, list) and e[0] == "f"]
+                if not fs or fs[-1][2] != "is_idempotent":
+                    continue
+                n_set += 1
+                # a setter: the stored operand is a parameter of the function, unchanged
+                op = st[2][1] if st[2][0] == "use" else None
+                src = None
+                if op is not None and op[0] in ("c", "m") and not op[1][1]:
+                    src = op[1][0]
+                    hops = 0
+                    while src > body.argc and hops < 4:
+                        d = body.single_def(src)
+                        if d and d[0] == "stmt" and d[3][0] == "use" and d[3][1][0] in ("c", "m") and not d[3][1][1][1]:
+                            src = d[3][1][1][0]
+                            hops += 1
+                        else:
+                            break
+                is_param = src is not None and 1 <= src <= body.argc and body.local_ty(src) == "bool"
+                copies_field = op is not None and op[0] in ("c", "m") and any(isinstance(e, list) and e[0] == "f" and e[2] == "is_idempotent" for e in op[1][1])
+                r.instance("assigned:%s" % _fn(body.path), is_param or copies_field,
+                           "`is_idempotent` is assigned a value that is neither the caller's argument nor a copy of another such flag: "
+                           "the driver would retry / speculate on a request its caller did not declare idempotent", body.stmt_span(st))
+    if n_set < 3:
+        r.instance("setters-found", False, "expected the three set_is_idempotent setters, found %d stores" % n_set, None)
 
 
 _mini_cache = {}
